@@ -350,20 +350,14 @@ func resizeImage(img image.Image, w int, h int, cellPixW int, cellPixH int) imag
 	// calculate scale factors
 	sfX := float64(w) / float64(columns)
 	sfY := float64(h) / float64(lines)
-	newPixelWidth := wPix
-	newPixelHeight := hPix
-	switch {
-	case sfX == sfY:
-		// no-op
-	case sfX < sfY:
-		// Width is farther off, so set our new width to w and scale h
-		// appropriately
-		newPixelWidth = int(sfX * float64(wPix))
-		newPixelHeight = int(sfX * float64(hPix))
-	case sfX > sfY:
-		newPixelWidth = int(sfY * float64(wPix))
-		newPixelHeight = int(sfY * float64(hPix))
+	// Scale both dimensions by the factor of the dimension which is
+	// farther off
+	sf := sfX
+	if sfY < sfX {
+		sf = sfY
 	}
+	newPixelWidth := int(sf * float64(wPix))
+	newPixelHeight := int(sf * float64(hPix))
 	dst := image.NewRGBA(image.Rect(0, 0, newPixelWidth, newPixelHeight))
 	draw.NearestNeighbor.Scale(dst, dst.Rect, img, img.Bounds(), draw.Over, nil)
 	return dst
